@@ -157,10 +157,10 @@ var checks = map[string]*Check{
 		LevelText:   "Every history up to the length bound over a vocabulary of value-producing ECMAScript actions and value-inspecting branches is run twice on the real engine - state kept in memory vs. state marshalled to JSON and re-read at every subset of message boundaries - and the two runs must agree at every message on node, bindings and emitted messages. The mcrew host's own persistence (Storage.WriteState / GetCrew on a bolt file) is exercised the same way on a crew of machines with different bindings, and the sio host's (sio.Stdio's state file, siostd's boot path) on the crew histories of C15 at a smaller depth.",
 		LevelNote:   "Trusted: encoding/json as the persistence format (what the hosts use). Only the listed producers/inspectors are covered.",
 		Assumptions: commonAssumptions},
-	"C08": {ID: "C08", Harness: "core", Func: "C08", Category: "exploration", QuickDeadline: 240, ThoroughDeadline: 1500,
+	"C08": {ID: "C08", Parts: []Part{{Harness: "core", Func: "C08"}, {Harness: "mcrew", Func: "C08mcrew"}}, Category: "exploration", QuickDeadline: 240, ThoroughDeadline: 1500,
 		Engine: "E1", DesignRef: "6/C08",
 		Technique:   "bounded-exhaustive enumeration of emit/mutate/fail programs (every failure mode after every emission prefix) in every position of an action chain, observed through Walk and through a crew, against the reference emission sequence",
-		LevelText:   "Every program of the emit/set/fail language up to the length bound is executed as action (3 positions) and as guard, under three error-routing modes, through Spec.Walk and through sio.Crew.ProcessMsg; the emitted messages must be exactly those of the successfully completed actions, in order.",
+		LevelText:   "Every program of the emit/set/fail language up to the length bound is executed as action (3 positions) and as guard, under three error-routing modes, through Spec.Walk and through sio.Crew.ProcessMsg; the emitted messages must be exactly those of the successfully completed actions, in order. The mcrew host is driven with a chain of emitting actions under every step limit: what it publishes must be what the strides taken emitted.",
 		LevelNote:   "Trusted: action-language model; cancellation is delivered through the harness context at a fixed tick (the exact interruption instant inside goja is not controlled, and unobservable here).",
 		Assumptions: commonAssumptions},
 	"C07": {ID: "C07", Harness: "core", Func: "C07", Category: "exploration", QuickDeadline: 240, ThoroughDeadline: 1500, CrashIsViolation: true,
